@@ -44,6 +44,7 @@ def run(rep, tier):
     sweep_split(rep, F)
     stitch_keeps_interiors(rep, F)
     collection_contains_point(rep, F)
+    subdivision_intersects(rep, F)
 
 
 def earcut_layout(rep, F):
@@ -475,3 +476,60 @@ def collection_contains_point(rep, F):
             n_ok += 1
             rep.ok("R10.9", "contains_point:%s[0..3 members]" % key)
     rep.floor("R10.9", "collection impls of contains_point", n_ok, 2)
+
+
+def subdivision_intersects(rep, F):
+    """R10.10: a coordinate intersects the monotone subdivision exactly when it intersects some piece: Intersects<Coord> for MonotonicPolygons on
+    subdivisions of 0..3 pieces (exact unrolling) with the pieces' own answers as free booleans is their disjunction, for every valuation, and
+    decides on nothing else (no ordering / bounding-box shortcut over the pieces)."""
+    rep.rule("R10.10", "Intersects<Coord> for MonotonicPolygons (0..3 pieces, exact unrolling, every valuation of the pieces' answers): true exactly when some piece intersects the coordinate; no other decision (no shortcut that skips pieces)")
+    try:
+        fn = F.impl_method("geo::algorithm::intersects::Intersects", r"monotone::MonotonicPolygons<T>$", r"coord::Coord<T>$", "intersects", crates=("geo",))
+    except KeyError as e:
+        rep.bad("R10.10", "subdivision:anchor", str(e))
+        return
+    MP = "geo::algorithm::monotone::MonotonicPolygons"
+    bad = None
+    for n in range(0, 4):
+        members = tuple(("opaque", "m%d" % i) for i in range(n))
+        arg = ("adt", MP, "MonotonicPolygons", (("call", "vec!", (("array", members),)),))
+        try:
+            ex = Symex(F, concrete_iters=True, loop_bound=8, inline_crates=("geo",), max_depth=8, no_inline=[r"MonoPoly<.*Intersects", r"mono_poly::"])
+            ps = [p for p in ex.run(fn, args=[("&", arg), ("&", ("opaque", "c"))]) if p.kind != "cut"]
+        except Unanalysable as e:
+            bad = "%d pieces: %s" % (n, e)
+            break
+        for p in ps:
+            if p.kind != "ret":
+                bad = "%d pieces: a path panics" % n
+                break
+            vals = {}
+            for t, v in p.pc:
+                sh = show(t)
+                m = re.search(r"opaque\(m(\d)\)", sh)
+                if not m or "intersects" not in sh or "bounding_rect" in sh or "partition_point" in sh:
+                    bad = "%d pieces: decides on %s, not on a piece's intersects(coordinate)" % (n, sh[:100])
+                    break
+                vals[int(m.group(1))] = bool(v)
+            if bad:
+                break
+            r = p.ret
+            if r[0] != "const":
+                sh = show(r)
+                if r[0] == "call" and r[1].rsplit("::", 1)[-1] == "intersects" and re.search(r"opaque\(m\d\)", show(r[2][0])) and not any(vals.values()):
+                    continue        # the last piece's own answer, returned as is
+                bad = "%d pieces: returns %s, which is not a function of the pieces' own answers alone" % (n, sh[:100])
+                break
+            res = bool(r[1])
+            if res and not any(vals.values()):
+                bad = "%d pieces answering %s: true although no piece intersects" % (n, vals)
+                break
+            if not res and not (len(vals) == n and not any(vals.values())):
+                bad = "%d pieces answering %s: false %s" % (n, vals, "although a piece intersects" if any(vals.values()) else "without asking every piece")
+                break
+        if bad:
+            break
+    if bad:
+        rep.bad("R10.10", "subdivision:intersects", bad, where=fn.loc())
+    else:
+        rep.ok("R10.10", "subdivision:intersects[0..3 pieces]")
